@@ -296,7 +296,7 @@ pub fn install(dump: Rc<Dump>, longest: bool, order: bool) -> Result<(), String>
     for t in dump.terminals.iter() {
         regexes.push(match &t.recognizer {
             DRecognizer::Regex(r) => Some(
-                rustemo::regex::Regex::new(&format!("^{}", r))
+                rustemo::regex::Regex::new(&format!("^(?:{})", r))
                     .map_err(|e| format!("bad regex {r}: {e}"))?,
             ),
             _ => None,
